@@ -194,12 +194,15 @@ impl SseVector for __m128 {
 
     #[inline(always)]
     unsafe fn load_partial_lo_complex(ptr: *const Complex<Self::ScalarType>) -> Self {
-        _mm_castpd_ps(_mm_load_sd(ptr as *const f64))
+        // Complex<f32> is only 4-byte aligned, so this must be an alignment-free 64-bit load (movq), not a load through *const f64
+        _mm_castsi128_ps(_mm_loadl_epi64(ptr as *const __m128i))
     }
 
     #[inline(always)]
     unsafe fn load1_complex(ptr: *const Complex<Self::ScalarType>) -> Self {
-        _mm_castpd_ps(_mm_load1_pd(ptr as *const f64))
+        // alignment-free 64-bit load, then duplicate it into both halves
+        let lo = _mm_castsi128_pd(_mm_loadl_epi64(ptr as *const __m128i));
+        _mm_castpd_ps(_mm_unpacklo_pd(lo, lo))
     }
 
     #[inline(always)]
@@ -209,12 +212,15 @@ impl SseVector for __m128 {
 
     #[inline(always)]
     unsafe fn store_partial_lo_complex(ptr: *mut Complex<Self::ScalarType>, data: Self) {
-        _mm_storel_pd(ptr as *mut f64, _mm_castps_pd(data));
+        // alignment-free 64-bit store (movq) of the low half
+        _mm_storel_epi64(ptr as *mut __m128i, _mm_castps_si128(data));
     }
 
     #[inline(always)]
     unsafe fn store_partial_hi_complex(ptr: *mut Complex<Self::ScalarType>, data: Self) {
-        _mm_storeh_pd(ptr as *mut f64, _mm_castps_pd(data));
+        // alignment-free 64-bit store of the high half
+        let hi = _mm_unpackhi_pd(_mm_castps_pd(data), _mm_castps_pd(data));
+        _mm_storel_epi64(ptr as *mut __m128i, _mm_castpd_si128(hi));
     }
 
     #[inline(always)]
